@@ -75,4 +75,35 @@ theorem Write_then_Read (g : Globals) (T : Tables) (B : KeyFile.B64) (hB : B.dec
   have : B.dec (utf8 (g.b64 key)) = some key := by rw [← hE]; exact B.dec_enc key
   simp [Option.bind, KeyFile.readKey, this, hl, keyPair]
 
+/-- **`FileExists`**: false when `os.Stat` reports not-exist; a PANIC (nil FileInfo dereferenced) on any other `os.Stat` error;
+    otherwise "is not a directory" -/
+theorem FileExists_eq (g : Globals) (T : Tables) (path : Str) :
+    FileExists g T path = (match g.Stat path with
+      | .notExist => some false
+      | .otherErr => none
+      | .ok d => some (!d)) := by
+  unfold FileExists
+  cases g.Stat path <;> simp [statPair, isNotExist, infoIsDir]
+
+/-- what `os.Stat` says of the model's file-system object at the key path -/
+def statOf : KeyFile.FsObj → StatRes
+  | .absent => .notExist
+  | .absentNoParent => .notExist
+  | .file _ => .ok false
+  | .unreadable _ => .ok false
+  | .dir => .ok true
+  | .statFails => .otherErr
+
+/-- the model's key step branches on exactly the answer of the translated `FileExists`: where it panics the run crashes; where it
+    says true the file is read and never written; where it says false the path holds no regular file -/
+theorem FileExists_model (g : Globals) (T : Tables) (B : KeyFile.B64) (fresh : Bytes) (o : KeyFile.FsObj) (path : Str)
+    (h : g.Stat path = statOf o) :
+    (FileExists g T path = none → (KeyFile.step B fresh o).2 = .crash) ∧
+    (FileExists g T path = some true → (KeyFile.step B fresh o).1 = o) ∧
+    (FileExists g T path = some false → o = .absent ∨ o = .absentNoParent ∨ o = .dir) := by
+  rw [FileExists_eq, h]
+  cases o with
+  | file c => simp only [statOf, KeyFile.step]; cases KeyFile.readKey B c <;> simp
+  | _ => simp [statOf, KeyFile.step]
+
 end Anonymongo.Src
